@@ -317,9 +317,30 @@ def _method_chain(node, f):
     return ast.unparse(node), list(reversed(chain))
 
 
+def _splitter(node, f):
+    """How `node` cuts text into lines: ("helper", name, root) for `split_lines(x)` / `error.split_lines(x)`,
+    ("chain", [(method, args)...], root) for method calls on the text."""
+    if isinstance(node, ast.Name) and f is not None:
+        defs = [n.value for n in walk_no_nested_funcs(f) if isinstance(n, ast.Assign)
+                and any(isinstance(t, ast.Name) and t.id == node.id for t in n.targets)]
+        if len(defs) == 1:
+            node = defs[0]
+    if isinstance(node, ast.Call) and not isinstance(node.func, ast.Attribute) or \
+            (isinstance(node, ast.Call) and isinstance(node.func, ast.Attribute) and isinstance(node.func.value, ast.Name)
+             and node.func.value.id in ("error", "parser_types") and node.args):
+        name = node.func.attr if isinstance(node.func, ast.Attribute) else node.func.id
+        root = ast.unparse(node.args[0]) if node.args else ""
+        return ("helper", name, root)
+    root, chain = _method_chain(node, f)
+    return ("chain", chain, root)
+
+
 def linesplit(repo, side="both"):
-    """Line numbers are assigned by the tokenizer and interpreted by the error printer; both must cut the source
-    text into lines in the same way, or positions point at the wrong text for inputs with unusual terminators."""
+    """R-LINESPLIT (C10/C16): line numbers are assigned by the tokenizer and interpreted by the error printer, so both cut
+    the source text into lines in the *same* way (same helper, or identical method chain).  And the cut follows the
+    documented patterns: `#.*`, `-- .*` and strings stop only at a newline, so only "\n" (with "\r\n"/"\r") ends a line --
+    `str.splitlines()` also splits at form feed, vertical tab, U+0085, U+2028/9, FS/GS/RS, which turns the rest of a
+    comment into code (`# disabled:<FF>  1 [+1] UInt hidden` declares a field)."""
     res = RuleResult("R-LINESPLIT")
     m = repo.mod(TOK)
     f = next((g for g in m.top_funcs() if _assigns_name(g.node, "indent_stack")), None)
@@ -329,41 +350,63 @@ def linesplit(repo, side="both"):
              and any(isinstance(x, ast.AugAssign) and isinstance(x.op, ast.Add) for x in n.body)]
     if not loops:
         raise AnalysisError("tokenizer: the per-line loop was not found")
-    tok_root, tok_chain = _method_chain(loops[0].iter, f.node)
+    tok = _splitter(loops[0].iter, f.node)
     params = [a.arg for a in f.node.args.args]
     res.instances += 1
-    if tok_root not in params:
+    if tok[2] not in params:
         res.add(f"{TOK}|{f.name}|lines-root", f"the per-line loop iterates `{ast.unparse(loops[0].iter)}`, which is not derived "
-                f"from the source text parameter by method calls", TOK, loops[0].lineno, f.name)
+                f"from the source text parameter", TOK, loops[0].lineno, f.name)
     er = repo.mod("compiler/util/error.py")
     shown = []
     for g in er.funcs.values():
         for n in walk_no_nested_funcs(g.node):
-            if isinstance(n, ast.Call) and isinstance(n.func, ast.Attribute) and n.func.attr in ("splitlines", "split") \
-                    and isinstance(n.func.value, ast.Subscript) and "source" in ast.unparse(n.func.value.value):
-                shown.append((g, n, _method_chain(n, g.node)[1]))
+            if isinstance(n, ast.Assign) and isinstance(n.targets[0], ast.Name) and "line" in n.targets[0].id and isinstance(n.value, ast.Call) \
+                    and "source" in ast.unparse(n.value) and "[" in ast.unparse(n.value):
+                shown.append((g, n.value, _splitter(n.value, g.node)))
     if not shown:
         raise AnalysisError("error.py: the place where source text is cut into lines for display was not found")
-    canonical = [("splitlines", [])]
+
+    def over_splits(sp):
+        """reason if the splitter cuts at more than newline characters, else None."""
+        if sp[0] == "chain":
+            if sp[1] and sp[1][0][0] == "splitlines":
+                return "str.splitlines() also ends a line at form feed, vertical tab, U+0085, U+2028, U+2029 and FS/GS/RS"
+            if sp[1] and sp[1][0][0] == "split" and sp[1][0][1] in (["'\\n'"], ['"\\n"']):
+                return None
+            return f"unrecognised way of cutting lines: {sp[1]}"
+        helper = next((g for g in er.funcs.values() if g.name == sp[1]), None) or next((g for g in m.funcs.values() if g.name == sp[1]), None)
+        if helper is None:
+            return f"helper {sp[1]} not found"
+        pats = [c for n in ast.walk(helper.node) if isinstance(n, ast.Call) and (call_name(n) or "") in ("re.split", "re.compile") and n.args
+                for c in [n.args[0]] if isinstance(c, ast.Constant) and isinstance(c.value, str)]
+        if any(isinstance(n, ast.Attribute) and n.attr == "splitlines" for n in ast.walk(helper.node)):
+            return "the helper uses str.splitlines()"
+        if not pats:
+            return f"helper {sp[1]}: no literal re.split pattern"
+        alts = set(pats[0].value.split("|"))
+        if not alts <= {"\r\n", "\r", "\n"} or "\n" not in alts:
+            return f"helper {sp[1]} splits at {sorted(alts)!r}"
+        return None
+
     if side in ("both", "tokenizer"):
         res.instances += 1
-        if tok_chain != canonical:
-            res.add(f"{TOK}|{f.name}|linesplit", f"{f.name} cuts the source into lines with {tok_chain}, not with str.splitlines(): "
-                    "line terminators other than the ones it knows (form feed, lone CR, U+2028, ...) no longer end a line, so "
-                    "two source lines become one token line and positions no longer address the text they name",
+        why = over_splits(tok)
+        if why:
+            res.add(f"{TOK}|{f.name}|linesplit", f"{f.name} cuts the source into lines in a way the documented patterns do not allow: {why}; "
+                    "text after such a character inside a comment, documentation or string becomes a line of its own (code)",
                     TOK, loops[0].lineno, f.name)
         else:
-            res.samples.append(f"{f.name}: {tok_chain}")
-    if side in ("both", "printer"):
-        for g, n, chain in shown:
-            res.instances += 1
-            if chain != tok_chain:
-                res.add(f"{er.rel}|{g.qualname}|linesplit", f"{g.qualname} (error display) cuts the source into lines with {chain} but "
-                        f"{f.name} numbers lines with {tok_chain}: for line terminators the two treat differently (form feed, "
-                        "lone CR, U+2028, ...) a reported line number addresses other text or no line at all (IndexError)",
-                        er.rel, n.lineno, g.qualname)
-            else:
-                res.samples.append(f"{f.name} and {g.qualname}: {chain}")
+            res.samples.append(f"{f.name}: {tok[:2]}")
+    for g, n, sp in shown:
+        res.instances += 1
+        if sp[:2] != tok[:2]:
+            if side in ("both", "printer") or (side == "tokenizer" and over_splits(tok) is None):
+                owner = (er.rel, g.qualname) if side != "tokenizer" else (TOK, f.name)
+                res.add(f"{owner[0]}|{owner[1]}|linesplit-agree", f"{g.qualname} (error display) cuts the source into lines with {sp[:2]} but "
+                        f"{f.name} numbers lines with {tok[:2]}: for terminators the two treat differently a reported line number "
+                        "addresses other text or no line at all", er.rel if side != "tokenizer" else TOK, n.lineno, owner[1])
+        else:
+            res.samples.append(f"{f.name} and {g.qualname}: {sp[:2]}")
     res.analysed = [TOK, er.rel]
     return res
 
